@@ -19,7 +19,7 @@ class Contract:
                  assumptions=(), loop_modifies=None, check_encode=False, replay=None, generator=False,
                  ghost_modifies=(), pure=False, notes="", bodyless=False, lemmas=None, cls=None,
                  timeout_ms=None, frame_check=True, inline=False, forall_ghosts=(), watch_extra=None,
-                 model_to_inputs=None, native=None, cuts=None):
+                 model_to_inputs=None, native=None, cuts=None, defaults=None):
         self.id = id
         self.file = file
         self.qualname = qualname
@@ -63,6 +63,7 @@ class Contract:
         self.forall_ghosts = list(forall_ghosts)
         self.watch_extra = watch_extra
         self.cuts = cuts or {}
+        self.defaults = defaults or {}
         self.model_to_inputs = model_to_inputs   # model dict -> inputs of the native replay driver
         self.native = native                     # (native module, function) used to replay
         self.defs_parsed = {}
@@ -156,7 +157,9 @@ def _quant(kind):
 
 
 def _implies(ev, node):
-    a = ev.truth(ev.expr(node.args[0]))
+    a = ev.cond(node.args[0])
+    if z3.is_false(z3.simplify(a)):
+        return VBool(True)
     ev.guards.append(a)
     try:
         b = ev.truth(ev.expr(node.args[1]))
@@ -332,6 +335,8 @@ def bind_contract_args(ev, contract, args, kwargs, node):
     names = list(contract.params)
     env = dict(zip(names, args))
     env.update(kwargs)
+    for k, v in contract.defaults.items():
+        env.setdefault(k, v)
     return env
 
 
@@ -590,6 +595,8 @@ def inline_call(ev, c, fdef, args, kwargs, node):
     env = bind_params(ev, fdef.args, args, kwargs, node, defaults_ev=dev)
     nf = Frame(InlineView(c, ev.frame.root().contract), c.file, c.cls, env, parent=None, fn=fdef)
     nf.top = False
+    nf.caller = ev.frame.root()
+    nf.loop_vars = nf.caller.loop_vars
     sub = Ev(ev.st, nf, ev.registry)
     from .engine import _Return
     try:
